@@ -169,7 +169,12 @@ def _range(it, a, kw, node):
         elif len(a) == 2:
             lo, hi = a
         else:
-            raise AnalysisError(f"{it.where(node)}: symbolic range with step")
+            lo, hi, step = a
+            if is_sym(step):
+                raise AnalysisError(f"{it.where(node)}: range with symbolic step")
+            idx = Term("range_elem", (lo, hi, step), "int")
+            return I.SymSeq(f"range({show(lo)},{show(hi)},{step})", idx, Term("range_len", (lo, hi, step), "int"),
+                            src=("range", lo, hi, step))
         idx = Term("range_elem", (lo, hi), "int")
         return I.SymSeq(f"range({show(lo)},{show(hi)})", idx, Term("range_len", (lo, hi), "int"))
     return range(*a)
@@ -233,6 +238,11 @@ def _sum(it, a, kw, node):
 
 
 def _all(it, a, kw, node):
+    I = _I()
+    if isinstance(a[0], I.SymSeq):
+        # all(pred(e) for e in S): decided on the generic element — true: every element satisfies it (a ∀-fact, as for the
+        # loop `for e in S: if not pred(e): …`); false: some element does not
+        return bool(it.truth(a[0].elem, node))
     for x in it.iter_concrete(a[0], node):
         if not it.truth(x, node):
             return False
@@ -240,22 +250,34 @@ def _all(it, a, kw, node):
 
 
 def _any(it, a, kw, node):
+    I = _I()
+    if isinstance(a[0], I.SymSeq):
+        return bool(it.truth(a[0].elem, node))
     for x in it.iter_concrete(a[0], node):
         if it.truth(x, node):
             return True
     return False
 
 
+def _minmax(name, it, a, kw, node):
+    I = _I()
+    items = list(a)
+    if len(items) == 1 and isinstance(items[0], (list, tuple, I._ConcreteIter)):
+        items = list(items[0])
+    if any(is_sym(x) for x in items):
+        if all(isinstance(x, (int, Term)) for x in items):
+            return Term(name, tuple(items), "int")
+        # extremum of values without a modelled order (symbolic field elements …): an opaque integer
+        return Term(name, tuple(repr(x) if not isinstance(x, (int, Term)) else x for x in items), "int")
+    return (max if name == "max" else min)(items)
+
+
 def _max(it, a, kw, node):
-    if any(is_sym(x) for x in a):
-        return Term("max", tuple(a), "int")
-    return max(*a)
+    return _minmax("max", it, a, kw, node)
 
 
 def _min(it, a, kw, node):
-    if any(is_sym(x) for x in a):
-        return Term("min", tuple(a), "int")
-    return min(*a)
+    return _minmax("min", it, a, kw, node)
 
 
 def _pow(it, a, kw, node):
@@ -295,7 +317,11 @@ def _bytes(it, a, kw, node):
             # bytes([i]) with symbolic i == I2OSP(i, 1) when 0 <= i < 256
             it.emit("implicit_raise", exc="ValueError", cond=("byte_range", v[0]), node=node)
             return Term("i2osp", (v[0], 1), "bytes")
-        raise AnalysisError(f"{it.where(node)}: bytes() of mixed list")
+        # a byte string assembled from symbolic digits: opaque, of known length
+        for x in v:
+            if is_sym(x):
+                it.emit("implicit_raise", exc="ValueError", cond=("byte_range", x), node=node)
+        return Term("bytes_of_list", tuple(I._hashable(x) for x in v), "bytes")
     if isinstance(v, int):
         return bytes(v)
     raise AnalysisError(f"{it.where(node)}: bytes() of {v!r}")
@@ -447,6 +473,64 @@ def _version(it, a, kw, node):
     return "<version>"
 
 
+def _map(it, a, kw, node):
+    I = _I()
+    fn, seqs = a[0], a[1:]
+    if len(seqs) == 1 and isinstance(seqs[0], I.SymSeq):
+        base = seqs[0]
+        v = it.call(fn, [base.elem], {}, node)
+        return I.SymSeq(f"map@{it.where(node)}", v, base.length, ("map", base))
+    if any(is_sym(x) for x in seqs):
+        raise AnalysisError(f"{it.where(node)}: map over symbolic sequences")
+    cols = [it.iter_concrete(x, node) for x in seqs]
+    return I._ConcreteIter([it.call(fn, list(xs), {}, node) for xs in zip(*cols)])
+
+
+def _reduce(it, a, kw, node):
+    I = _I()
+    if len(a) == 3:
+        fn, seq, init = a
+    elif len(a) == 2:
+        fn, seq = a
+        init = _NOINIT
+    else:
+        raise AnalysisError(f"{it.where(node)}: functools.reduce with {len(a)} arguments")
+    if isinstance(seq, I.SymSeq) or (isinstance(seq, Term) and seq.sort in ("bytes", "seq")):
+        if init is _NOINIT:
+            raise AnalysisError(f"{it.where(node)}: reduce over a symbolic sequence without an initial value")
+        from .term import sort_of
+        it.loop_counter += 1
+        lid = f"L{it.loop_counter}@{it.where(node)}"
+        elem = it.generic_elem(seq, node)
+        base = seq
+        if isinstance(seq, I.SymSeq) and isinstance(seq.src, tuple) and len(seq.src) == 2 and seq.src[0] == "map":
+            base = seq.src[1]            # an element-wise image: the fold ranges over the underlying sequence
+        acc = Term("acc", (lid, "acc"), sort_of(init))
+        it.emit("loop_enter", loop=lid, seq=base, node=node)
+        it.sym_loop_depth += 1
+        try:
+            new = it.call(fn, [acc, elem], {}, node)
+        finally:
+            it.sym_loop_depth -= 1
+        if new is acc:
+            return init
+        f = I.Fold(lid, "acc", init, new, acc, base)
+        it.emit("loop_exit", loop=lid, seq=base, folds={"acc": f}, node=node)
+        return f
+    items = it.iter_concrete(seq, node)
+    if init is _NOINIT:
+        if not items:
+            it.raise_exc("TypeError", "reduce() of empty iterable with no initial value", node)
+        acc, items = items[0], items[1:]
+    else:
+        acc = init
+    for x in items:
+        acc = it.call(fn, [acc, x], {}, node)
+    return acc
+
+
+_NOINIT = object()
+
 _TABLE = {
     "len": _len, "isinstance": _isinstance, "type": _type, "hasattr": _hasattr, "int": _int,
     "bool": _bool, "range": _range, "zip": _zip, "enumerate": _enumerate, "reversed": _reversed,
@@ -455,7 +539,7 @@ _TABLE = {
     "abs": _abs, "float": _float, "divmod": _divmod,
     "typing.cast": _cast, "typing.NewType": _newtype, "typing.TypeVar": _typevar,
     "math.ceil": _ceil, "math.log2": _log2, "hmac.new": _hmac_new,
-    "int.from_bytes": _from_bytes,
+    "int.from_bytes": _from_bytes, "map": _map, "functools.reduce": _reduce,
     "importlib.metadata.version": _version,
 }
 
@@ -482,8 +566,20 @@ def call_method(it, name, obj, args, kwargs):
         if order != "big" or signed:
             if is_sym(x) or is_sym(n):
                 return Term("to_bytes", (x, n, order, signed), "bytes")
+        if not is_sym(x) and isinstance(x, int) and x == 0 and is_sym(n):
+            return Term("repeat", (b"\x00", n), "bytes")          # I2OSP(0, n) = n zero bytes
         if is_sym(x) or is_sym(n):
-            it.emit("implicit_raise", exc="OverflowError", cond=("i2osp_range", x, n))
+            bound = _byte_bound(x)
+            fits = bound is not None and (bound is n or (isinstance(bound, int) and isinstance(n, int) and bound <= n))
+            if not fits:
+                it.emit("implicit_raise", exc="OverflowError", cond=("i2osp_range", x, n))
+            # I2OSP(OS2IP(a) xor OS2IP(b), n) with len(a) = len(b) = n is the byte-wise xor of a and b
+            if isinstance(x, Term) and x.op == "xor" and all(isinstance(u, Term) and u.op == "os2ip" for u in x.args):
+                a_, b_ = x.args[0].args[0], x.args[1].args[0]
+                if t_len(a_) is n or (isinstance(n, int) and t_len(a_) == n):
+                    if t_len(b_) is n or (isinstance(n, int) and t_len(b_) == n):
+                        from .term import t_xor
+                        return t_xor(a_, b_)
             return Term("i2osp", (x, n), "bytes")
         try:
             return int(x).to_bytes(n, order, signed=signed)
@@ -491,6 +587,10 @@ def call_method(it, name, obj, args, kwargs):
             it.raise_exc("OverflowError", "int too big to convert")
     if tname == "int" and meth == "bit_length" and not is_sym(obj):
         return obj.bit_length()
+    if tname == "int" and meth == "bit_length":
+        return Term("bit_length", (obj,), "int")
+    if tname == "bytes" and meth in ("startswith", "endswith") and (is_sym(obj) or any(is_sym(a) for a in args)):
+        return Term(meth, (I._hashable(obj),) + tuple(I._hashable(a) for a in args), "bool")
     if tname == "bytes" and isinstance(obj, Term):
         if meth == "join":
             raise AnalysisError("join on symbolic separator")
@@ -552,6 +652,32 @@ def call_method(it, name, obj, args, kwargs):
         if meth == "get":
             return obj.get(*args)
     raise AnalysisError(f"unmodelled method {name} on {show(obj)}")
+
+
+def _xor_key(t):
+    return (getattr(t, "_h", 0), repr(t))
+
+
+def _byte_bound(x):
+    """n such that 0 <= x < 256**n is evident from the shape of x (an int or a length term), else None"""
+    if isinstance(x, bool):
+        return 1
+    if isinstance(x, int):
+        return max(1, (x.bit_length() + 7) // 8) if x >= 0 else None
+    if isinstance(x, Term):
+        if x.op == "os2ip":
+            return t_len(x.args[0])
+        if x.op in ("xor", "or", "and"):
+            bs = [_byte_bound(u) for u in x.args]
+            if any(b is None for b in bs):
+                return None
+            if bs[0] is bs[1] or bs[0] == bs[1]:
+                return bs[0]
+            if all(isinstance(b, int) for b in bs):
+                return max(bs) if x.op != "and" else min(bs)
+        if x.op == "mod" and isinstance(x.args[1], int) and x.args[1] > 0:
+            return ((x.args[1] - 1).bit_length() + 7) // 8 or 1
+    return None
 
 
 def _b2b(v):
